@@ -403,9 +403,12 @@ def run_scenario(V, sc, idx, wd, tier, rng):
                 f.write(c)
         dates = lookups_for_state(rng, files, year, new_rows, sc["t3"], written={o["name"] for o in ops if o["op"] == "write"})
         cid = "s%d-%06d" % (idx, si)
+        # half of the later runs cannot download (no network): then only "refuse" or "the published rate" remain
+        offline = rng.random() < 0.5
         cases.append({"id": cid, "cache": "csv", "dir": d,
-                      "runs": [{"today": sc["t3"].isoformat(), "remote": remote_spec(vis3), "lookups": [x.isoformat() for x in dates]}]})
+                      "runs": [{"today": sc["t3"].isoformat(), "remote": None if offline else remote_spec(vis3), "lookups": [x.isoformat() for x in dates]}]})
         plan[cid] = (label, files, model, dates)
+        V.bump("later_runs_offline" if offline else "later_runs_online")
     res = common.run_harness("rates", cases, tag="c14-%d" % idx)
     # Reference answers of the two uncrashed states (old cache left alone; write completed) for every date
     # asked anywhere: a "wrong day" answer is attributed to the crash only if neither of them gives it.
